@@ -137,7 +137,11 @@ class Program:
         # helpers introduced after the pinned vocabulary (extract-method refactorings) are inlined back into their callers
         from .inline import Inliner, load_vocabulary
         self.inliner = Inliner(self.modules, load_vocabulary()).run()
-        if self.inliner.inlined_sites:
+        from .normalize import Normalizer
+        self.normalizer = Normalizer(self.modules).run()
+        for tree in self.modules.values():
+            ast.fix_missing_locations(tree)
+        if self.inliner.inlined_sites or self.normalizer.changes:
             self.parent = {}
             for tree in self.modules.values():
                 for par in ast.walk(tree):
